@@ -95,7 +95,14 @@ def _run_seq(seq):
             if got[0] != want[0] or abs(got[1] - want[1]) > 1e-6:
                 return None, (i, got, want)
         key = (ref.timeout, None if ref.started is None else round(clk.mono - ref.started, 3), None if ref.stopped is None else round(ref.stopped - ref.started, 3), round(clk.wall - clk.mono - (1.7e9 - 100.0), 3))
-        return key, None
+        # the implementation's own state is part of the key: two sequences may only be merged when
+        # the real timer is in the same state as well (clock readings are taken relative to now)
+        impl = []
+        for k, v in sorted(t.__dict__.items()):
+            if isinstance(v, float) or (isinstance(v, int) and not isinstance(v, bool)):
+                v = round(v - clk.wall, 3) if v > 1e8 else (round(v - clk.mono, 3) if v >= 100.0 else v)
+            impl.append((k, v))
+        return key + (tuple(impl),), None
     finally:
         tmod.time = old
 
